@@ -231,7 +231,8 @@ PATHS = [
     '/pl/pl.po', '/x/pl_PL/de.po', '/x/pl-PL/de.po', '/x/pl/de.mo', '/x/pl/messages.po', '/x/de/LC_MESSAGES/pl.po',
     'pl\n.po', 'pl\n/LC_MESSAGES/x.mo', 'de\n/LC_MESSAGES/pl.po', ' pl.po', 'PL.po', 'pl.PO', 'pl.po.po', 'pl..po', 'a.b.po', 'pl@euro@x.po',
 ]
-# paths `check()` can only hand to check_language under the hidden --file-type option (os.path.splitext gives no extension)
+# paths `check()` can only hand to check_language under the hidden --file-type option (os.path.splitext gives no extension);
+# before /repo d16b49e they failed `assert ext == '.po'`
 GATED_PATHS = ['.po', '/x/.po', '..po', 'x/...po', 'pl/LC_MESSAGES/.po']
 
 METAS = [
